@@ -1,4 +1,5 @@
 import Driver.Tf
+import Driver.Op
 /-!
   Line-protocol driver.  One request per line:
 
@@ -19,12 +20,14 @@ def engineModel (eng : String) (args : List String) : Option String :=
   match eng with
   | "tf" => Tf.model args
   | "tfchain" => TfChain.model args
+  | "op" => Op.model args
   | _ => none
 
 def engineJudge (eng : String) (args obs : List String) : Bool :=
   match eng with
   | "tf" => Tf.judge args obs
   | "tfchain" => TfChain.judge args obs
+  | "op" => Op.judge args obs
   | _ => true
 
 def handle (line : String) : String :=
